@@ -293,6 +293,9 @@ class VerifPool final : public yaclib::IExecutor {
     vrt::Obs("pool_submit");
     _queue.push_back(&job);
     WakeOne();
+    // the job is visible to the workers now: in tail-split executions another worker may run it before the submitter's
+    // next plain statement (a real pool gives no guarantee about that either)
+    vrt::SplitPoint();
   }
   void Stop() {
     _stopped = true;
